@@ -8,6 +8,8 @@ SPEC = {
          "race_thorough": True},
         {"name": "TestEncoderHistory", "quick": 600, "thorough": 32000, "shards_quick": 4, "shards_thorough": 16, "timeout": 1800,
          "race_thorough": True},
+        {"name": "TestEncoderBoundary", "quick": 160, "thorough": 6000, "shards_quick": 4, "shards_thorough": 16, "timeout": 1800,
+         "race_thorough": True},
         {"name": "TestEngineLevel", "quick": 480, "thorough": 24000, "shards_quick": 4, "shards_thorough": 16, "timeout": 1800,
          "race_thorough": True, "replay_repeat": 50},
         # case counts are fixed inside the tests (vf.Batch): 8 subprocess trials quick, 100 per process thorough
@@ -22,11 +24,18 @@ SPEC = {
              "jsonlines / NewEncoderAggregator+JSON encoder / NewEncoderAggregator+a SampleEncodeCloser: struct, map, string, int, list "
              "samples with strings holding newlines, quotes, control characters, unicode; queue 1-64, flush interval 0/1 ms-1 s, "
              "recording DataSink; Run started up to 2 ms after the reporters, context cancelled 0-3 ms after the last Report returned. "
-             "(b) real engine + real phout + recording gun reporting 1-3 uniquely tagged samples per shot, 1-4 instances, 1-120 tokens: "
+             "(a') buffer-boundary sweep of the same three encoder aggregators: one sample of a fixed encoded line length (32-4096 bytes "
+             "dividing 4 KiB, 2047-8193 around the buffer sizes, arbitrary 32-900; string / map / list) is reported n times for EVERY n of "
+             "a window one buffer period + 2 wide (period = 4 KiB or the configured buffer_size / line length, window at the 0th-6th "
+             "period; or 4 counts around the one that fills the 512 KiB default buffer with 4-32 KiB lines), queue = n (no overflow), "
+             "1-3 reporters, buffer_size default/1/4096/5000/6000/8192/12288, flush interval 0 / 1 h (only the final flush writes) / 1 s / 1 ms. "
+             "(b) real engine + real phout + recording gun reporting 1-3 uniquely tagged samples per shot, 1-4 instances at once, 1-120 tokens: "
              "normal end (tokens or ammo exhausted, any queue size), provider fault at item i, caller cancel after the j-th completed report; "
-             "each case twice. (c) cmd/vpandora subprocess with the `verif` gun (side-file counters before / after every Report), real "
+             "in half of the normal / cancel cases the startup schedule goes on after the `once` part (const 1/s for 30 s, or 200-2000/s for "
+             "2-20 ms), and in half of those the ammo (0-24 items) runs out while instances are still being started and other instances "
+             "are inside shots of up to 2.5 ms whose samples are reported after the first 'out of ammo'; each case twice. (c) cmd/vpandora subprocess with the `verif` gun (side-file counters before / after every Report), real "
              "phout file, const 1-20 krps, 2-4 instances; SIGINT / SIGTERM 0-1.6 s after 100-3000 reports completed (both sides of phout's "
-             "1 s flush tick), or no signal and a 150-1200 ms run. Non-trivial = (a) >= 2 reporters or queue < reports, (b) >= 2 reports "
+             "1 s flush tick), or no signal and a 150-1200 ms run. Non-trivial = (a) >= 2 reporters or queue < reports, (a') every sweep, (b) >= 2 reports "
              "due before the end instant and (>= 2 instances or queue < reports), (c) c0 >= 100; distinct = hash of the case."),
     "floors": {
         "TestPhoutHistory/reporters_ge_2": 0.5, "TestPhoutHistory/queue_lt_reports": 0.4, "TestPhoutHistory/ids_on": 0.3,
@@ -36,6 +45,13 @@ SPEC = {
         "TestEncoderHistory/drops": 0.3, "TestEncoderHistory/no_drops": 0.15, "TestEncoderHistory/queue_1": 0.2,
         "TestEncoderHistory/kind_jsonlines": 0.3, "TestEncoderHistory/kind_encoder": 0.1, "TestEncoderHistory/kind_closer": 0.1,
         "TestEncoderHistory/reporters_ge_2": 0.5, "TestEncoderHistory/several_writes": 0.1, "TestEncoderHistory/escaped_newline": 0.2,
+        "TestEncoderBoundary/crossed_4k_multiple": 0.9, "TestEncoderBoundary/output_exact_4k_multiple": 0.25,
+        "TestEncoderBoundary/final_flush_only": 0.5, "TestEncoderBoundary/flush_never": 0.2, "TestEncoderBoundary/kind_jsonlines": 0.3,
+        "TestEncoderBoundary/kind_encoder": 0.08, "TestEncoderBoundary/kind_closer": 0.1, "TestEncoderBoundary/buffer_default": 0.2,
+        "TestEncoderBoundary/buffer_above_4k": 0.2, "TestEncoderBoundary/buffer_4k_minimum": 0.1, "TestEncoderBoundary/fills_default_buffer": 0.04,
+        "TestEncoderBoundary/beyond_first_period": 0.3, "TestEncoderBoundary/no_drops_at_any_count": 0.9,
+        "TestEngineLevel/gradual_startup": 0.3, "TestEngineLevel/instances_beyond_once": 0.15,
+        "TestEngineLevel/out_of_ammo_while_starting": 0.08, "TestEngineLevel/report_after_out_of_ammo_while_starting": 0.04,
         "TestEngineLevel/ended_by_itself": 0.3, "TestEngineLevel/cancel_in_progress": 0.15, "TestEngineLevel/provider_fault_reached": 0.08,
         "TestEngineLevel/reports_after_end_instant": 0.1, "TestEngineLevel/queue_le_2": 0.15, "TestEngineLevel/out_of_ammo_end": 0.1,
     },
